@@ -249,15 +249,16 @@ package filters
 //@ ensures containers: values.ToLiquid(value) != nil && (isarr(kind(values.ToLiquid(value))) || kind(values.ToLiquid(value)) == reflect.Map || kind(values.ToLiquid(value)) == reflect.String) ==> result == (pl_len(values.ToLiquid(value)) == 0)
 //@ ensures bools: kind(values.ToLiquid(value)) == reflect.Bool ==> result == !pl_bool(values.ToLiquid(value))
 
-// size: element count of an array or slice (any element type), character count of a string,
-// zero for everything else (maps included, as in Liquid)
+// size: element count of an array, slice (any element type) or range, character count of a
+// string, zero for everything else (maps included, as in Liquid)
 //@ func values.Length
 //@ props C01 C15 C16
 //@ panics nothing
 //@ assigns nothing
 //@ ensures arrays: isarr(kind(values.ToLiquid(value))) ==> result == pl_len(values.ToLiquid(value))
 //@ ensures strings: kind(values.ToLiquid(value)) == reflect.String ==> result == runecount(pl_str(values.ToLiquid(value)))
-//@ ensures others: !isarr(kind(values.ToLiquid(value))) && kind(values.ToLiquid(value)) != reflect.String ==> result == 0
+//@ ensures ranges: is(values.ToLiquid(value), values.Range) ==> result == max(0, as(values.ToLiquid(value), values.Range).e + 1 - as(values.ToLiquid(value), values.Range).b)
+//@ ensures others: !isarr(kind(values.ToLiquid(value))) && kind(values.ToLiquid(value)) != reflect.String && !is(values.ToLiquid(value), values.Range) ==> result == 0
 
 // truncate / truncatewords (C01, C16): no count or ellipsis makes them panic
 //@ func filter "truncate"
